@@ -10,12 +10,12 @@ LEAN_MODULES = ["AwsVerif.Props.C14"]
 COMPONENT = "logline"
 DRIVER_EXE = "awslog"   # own executable: the model imports a function translated from the source on every run
 P_DIFF_CONCRETE = False   # the direct oracle decides what contradicts the property; a model/implementation difference alone is conformance drift
-HARNESS = dict(name="logline", flavour="asan", ldflags=["-Wl,--wrap=clock_gettime"])
+HARNESS = dict(name="logline", flavour="asan", ldflags=["-Wl,--wrap=clock_gettime", "-Wl,--wrap=pthread_self"])
 TIMEOUT = 900
 NOT_PROVED = []
 TRUSTED = ["hand model lean/AwsVerif/Model/Log.lean (formatter control flow, gate, pipeline, channel transition systems; tied by the correspondence runs only)",
            "translator gen/cfun.py + gen/log_gen.py for s_advance_and_clamp_index, the size constants, level names and format literals (regenerated every run)",
-           "harness/logline.c (frozen clock via --wrap=clock_gettime, thread-id text set through tl_logging_thread_id), harness/logbg.c, harness/detsched.c",
+           "harness/logline.c (frozen clock via --wrap=clock_gettime; every `env` runs on a fresh thread whose pthread_self is pinned via --wrap=pthread_self, the id text itself is computed and cached by the library), harness/logbg.c, harness/detsched.c",
            "snprintf/strftime length semantics as stated in Model/Log.lean (snprintf, timestamp)"]
 ASSUMPTIONS = ["timestamp and thread-id text come from libc/pthreads: parameters of the model (NUL-free, newline-free)",
                "every segment shorter than 2^31 bytes and total_length < 2^64 (int / size_t ranges)",
@@ -80,13 +80,10 @@ def env_op(rng, secs=None, tid=None):
     if secs is None:
         secs = rng.choice([0, 1, 951782400, 1790462482, rng.randint(0, 17_000_000_000), rng.randint(0, 4_000_000_000)])
     if tid is None:
+        # the id text is what the library prints for the pthread_t the harness pins for this case's thread: 16 hex digits
         r = rng.random()
-        if r < 0.5:
-            tid = ("%016x" % (0x7f0000000000 + rng.getrandbits(40))).encode()
-        elif r < 0.6:
-            tid = b""
-        else:
-            tid = bytes(rng.choice(b"0123456789abcdef") for _ in range(rng.randint(1, 16)))
+        v = (0x7f0000000000 + rng.getrandbits(40)) if r < 0.6 else rng.choice([0, 1, (1 << 64) - 1, rng.getrandbits(64), rng.getrandbits(64)])
+        tid = ("%016x" % v).encode()
     ts = ts_texts(secs)
     return f"env {secs} {hx(tid)} {hx(ts[0])} {hx(ts[1])} {hx(ts[2])}", tid, ts
 
@@ -114,6 +111,16 @@ def subj_tok(s):
     return "null" if s is None else hx(s)
 
 
+def other_thread(rng, e):
+    """a second `env` for the same case: same instant, another thread (the harness runs what follows on a fresh thread
+    with this id) - lines of a second thread of the process must carry ITS id"""
+    t = e.split()
+    tid = ("%016x" % (0x7f0000000000 + rng.getrandbits(40))).encode()
+    if hx(tid) == t[2]:
+        tid = b"00007f0000000001"
+    return env_op(rng, secs=int(t[1]), tid=tid)[0]
+
+
 def gen_fmt_exhaustive(rng, level, tier):
     e, tid, ts = env_op(rng)
     subject = rand_subject(rng)
@@ -121,13 +128,16 @@ def gen_fmt_exhaustive(rng, level, tier):
     msg_len = rng.choice([0, 1, 5, 17, 40, 100, 250, 400])
     shape = rng.randint(0, 4)
     ops = [e] + [f"fmt {t} {level} {subj_tok(subject)} {msg_len} {df} {shape}" for t in range(2, 301)]
+    ops += [other_thread(rng, e)] + [f"fmt {t} {level} {subj_tok(subject)} {msg_len} {df} {shape}" for t in sorted(rng.sample(range(2, 301), 30))]
     return Case(ops, {"stream": "fmt-exhaustive", "level": level})
 
 
 def gen_fmt_boundary(rng):
     e, tid, ts = env_op(rng)
     ops = [e]
-    for _ in range(12):
+    for it in range(12):
+        if it == 6:
+            ops.append(other_thread(rng, e))     # same text lengths, another thread
         level = rng.randint(0, 6)
         subject = rand_subject(rng)
         df = rng.choice([0, 1, 2])
@@ -197,6 +207,8 @@ def gen_gate_exhaustive(rng, which):
     if which == "a" and rng.random() < 0.7:
         ops.append(wfail_op(rng, 25))
     for f in range(7):
+        if f == 3:
+            ops.append(other_thread(rng, e))
         ops.append(f"setlevel {which} {f}")
         for l in range(7):
             ops.append(log_op(rng, which, l))
@@ -206,7 +218,9 @@ def gen_gate_exhaustive(rng, which):
 def gen_noalloc_sweep(rng, lens):
     e, tid, ts = env_op(rng)
     ops = [e, "init n 6"]
-    for n in lens:
+    for j, n in enumerate(lens):
+        if j == len(lens) // 2:
+            ops.append(other_thread(rng, e))
         ops.append(log_op(rng, "n", rng.randint(0, 6), n))
     return Case(ops, {"stream": "noalloc-sweep"})
 
@@ -215,7 +229,9 @@ def gen_pipe_random(rng, n):
     e, tid, ts = env_op(rng)
     ops = [e]
     have = set()
-    for _ in range(n):
+    for it in range(n):
+        if it == n // 2:
+            ops.append(other_thread(rng, e))
         w = rng.choice("aabn")
         if w not in have:
             ops.append(f"init {w} {rng.choice([0, 1, 2, 3, 4, 5, 6, 6, 9])}")
@@ -263,9 +279,15 @@ def gen_cases(rng, tier):
 
 
 # ------------------------------------------------------------------------------------------------ direct oracle
-def check_line_shape(line, cap, full, where, errs):
+def check_line_shape(line, cap, full, where, errs, tid=None):
     """clauses of the property on one produced line: inside a buffer of `cap` bytes (with its terminator), ends in a single
     newline, no NUL, complete when it fits, otherwise a cut of the full line"""
+    if tid is not None and tid in full:
+        off = full.index(b"] [" + tid + b"] ") + 3
+        got = line[off:off + len(tid)]
+        if len(line) - 1 >= off + len(tid) and got != tid and line[:off] == full[:off]:
+            errs.append(f"{where}: the line's thread-id field is {got!r} but the calling thread's id is {tid!r}")
+            return
     if len(line) + 1 > cap:
         errs.append(f"{where}: {len(line)} bytes + terminator do not fit the {cap}-byte buffer")
     if not line.endswith(b"\n"):
@@ -329,7 +351,7 @@ def oracle(case, lines):
                     if kv["nul"] != "1":
                         errs.append(f"{op}: no terminator at amount_written")
                     full = prefix_of(level, ts[df], tid, subject) + msg_of(msg_len, shape) + b"\n"
-                    check_line_shape(line, total, full, op, errs)
+                    check_line_shape(line, total, full, op, errs, tid)
             elif valid:
                 # the one documented rejection: the timestamp does not fit behind the level tag
                 if len(LEVELS[level]) + 4 + len(ts[df]) <= total - 2:
@@ -378,7 +400,7 @@ def oracle(case, lines):
                 if want:
                     full = prefix_of(level, ts[1], tid, subject) + msg_of(msg_len, shape) + b"\n"
                     cap = noalloc_cap() if which == "n" else len(full) + 1
-                    check_line_shape(line, cap, full, op, errs)
+                    check_line_shape(line, cap, full, op, errs, tid)
             continue
         nxt()
     return errs[:8]
@@ -433,7 +455,7 @@ BG_HARNESS = dict(name="logbg", flavour="asan", extra_srcs=[detsched.SRC], ldfla
 def bg_run_lines(rng, n):
     out = []
     for i in range(n):
-        senders = rng.choice([1, 2, 2, 3, 4])
+        senders = rng.choice([1, 2, 2, 2, 3, 3, 4])
         lines = rng.choice([0, 1, 2, 3, 3, 4, 6])
         r = rng.random()
         # 1: drain before clean-up, 2: foreground channel, 3: no-alloc logger shared by the threads
@@ -477,15 +499,18 @@ def na_oracle(cfg, lines):
     """no-alloc logger shared by several threads: exactly one whole line per accepted call in the file, none for
     filtered calls, nothing lost / duplicated / torn, each thread's lines in its call order and with its own thread id"""
     errs = []
-    accepted, filtered, content = {}, [], None
+    accepted, filtered, content, tids = {}, [], None, {}
     for l in lines:
         if l.startswith("CRASH"):
             errs.append("implementation crashed / sanitizer report: " + l[:600])
         elif l.startswith("O MONITOR"):
             errs.append("harness monitor: " + l[2:])
+        elif l.startswith("O tid "):
+            t = l.split()
+            tids[int(t[2][1:])] = t[3].encode()
         elif l.startswith("O logged "):
             t = l.split()
-            accepted[(int(t[2][1:]), int(t[3]))] = (t[4].encode(), t[5].split("=")[1].encode())
+            accepted[(int(t[2][1:]), int(t[3]))] = (t[4].encode(), tids.get(int(t[2][1:]), b"?"))
         elif l.startswith("O filtered "):
             t = l.split()
             filtered.append((int(t[2][1:]), int(t[3])))
@@ -499,6 +524,8 @@ def na_oracle(cfg, lines):
                 errs.append("allocator imbalance or mutex misuse: " + l)
     if content is None:
         return errs + ["run did not finish"]
+    if len(set(tids.values())) != len(tids):
+        errs.append(f"harness: thread ids are not distinct: {tids}")
     if b"\0" in content:
         errs.append(f"NUL byte in the log file at offset {content.index(0)}")
     if content and not content.endswith(b"\n"):
@@ -517,7 +544,7 @@ def na_oracle(cfg, lines):
         if ln.split(b" - ", 1)[1] != na_text(*key) or m.group(1) != lvl:
             errs.append(f"line {n}: message of call {key} is not complete / not its own: {ln[-60:]!r}")
         if m.group(2) != tid:
-            errs.append(f"line {n}: call {key} of thread id {tid.decode()} carries thread id {m.group(2).decode()}")
+            errs.append(f"line {n}: call {key} was made by the thread with id {tid.decode()} but its line carries thread id {m.group(2).decode()}")
         seen[key] = seen.get(key, 0) + 1
         if key[0] in last and last[key[0]] > key[1]:
             errs.append(f"thread {key[0]}: line {key[1]} after line {last[key[0]]} (call order not preserved)")
@@ -536,11 +563,14 @@ def bg_oracle(cfg, lines):
     foreground = cfg.split()[5] == "2"
     sent, written, destroyed = [], [], []
     returned = False
+    tids = {}
     for l in lines:
         if l.startswith("CRASH"):
             errs.append("implementation crashed / sanitizer report: " + l[:600])
         if l.startswith("O MONITOR"):
             errs.append("harness monitor: " + l[2:])
+        elif l.startswith("O tid "):
+            tids[l.split()[2]] = l.split()[3]
         elif l.startswith("O sent "):
             key = tuple(l.split()[2:4])
             sent.append(key)
@@ -550,7 +580,9 @@ def bg_oracle(cfg, lines):
             t = l.split()
             key = (t[2], t[3])
             if t[4] != "intact=1":
-                errs.append(f"line {key} reached the writer torn or after its release")
+                errs.append(f"line {key} reached the writer torn, not as [INFO] [time] [thread id] [subject] - message, or after its release")
+            elif len(t) > 5 and t[5] != "tid=" + tids.get(key[0], "?"):
+                errs.append(f"line {key} was logged by the thread with id {tids.get(key[0], '?')} but carries thread id {t[5][4:]}")
             if key in written:
                 errs.append(f"line {key} written twice")
             if key in sent and foreground:
